@@ -3,9 +3,11 @@ CONSTANTS Variant = "faithful"
   Depth = 2
   KMax = 2
   Pool = {3, 772}
-  ShapeNames = {"S1","S2","S3","S4","S5","S5w","S6","S7","UN","A1","A2","A3","A4","A5","P1","PC"}
+  Combos = "all"
+  ShapeNames = {"S1","S2","S3","S4","S5","S5w","S6","S7","S8","UN","A1","A2","A3","A4","A5","P1","PC"}
 INVARIANT WellFormed
 INVARIANT ClaimsDisjoint
+INVARIANT FlagIsStructural
 INVARIANT Accepts
 INVARIANT NoOverflow
 INVARIANT Fits
